@@ -7,7 +7,9 @@ Decided statically are the finite control tables the documented semantics rests 
   R-C01-unresolved-is-fail    binary_operation / real_binary_operation: every unresolved or not-comparable element yields
                               exactly FAIL (never dropped, never PASS); Success -> PASS, Fail -> FAIL; `selected` hands every
                               element to exactly one of its two callbacks
-  R-C01-empty-selection-skips an empty selection makes the dependent clause SKIP (unary, binary, CmpOperator::compare)
+  R-C01-empty-selection-skips an empty selection makes the dependent clause SKIP (unary: every unary operator x operator negation x
+                              prefix negation; binary; CmpOperator::compare)
+  R-C01-errors-propagate      no evaluator function turns a callee's error into a value (each Result-returning call forked Ok/Err)
   R-C01-clause-aggregation    all/some aggregation of per-value statuses into the clause status
 """
 from engine import ai, mirlib as M
